@@ -27,7 +27,7 @@ INC = os.path.join(REPO, "Include")
 COQ = os.path.join(ROOT, "coq")
 BUILD = os.path.join(ROOT, "build")
 EVID = os.environ.get("VERIF_EVIDENCE_DIR") or os.path.join(ROOT, "evidence")    # override: side runs (other seeds, scratch worktrees) that must not replace the committed evidence
-REPLAYS = os.path.join(ROOT, "replays")
+REPLAYS = os.path.join(os.environ["VERIF_EVIDENCE_DIR"], "replays") if os.environ.get("VERIF_EVIDENCE_DIR") else os.path.join(ROOT, "replays")
 GUARD = "QENTEM_VERIF"
 NPROC = os.cpu_count() or 4
 
